@@ -1214,6 +1214,21 @@ class PyFat(object):
             raise PyFATException(f"Cannot create a FAT{fat_type} filesystem "
                                  f"of {size} bytes.", errno=errno.EINVAL)
 
+        # readers derive the FAT type from the cluster count alone
+        num_clusters = data_sectors // sec_per_clus
+        if fat_type == PyFat.FAT_TYPE_FAT12:
+            type_mismatch = num_clusters >= 4085
+        elif fat_type == PyFat.FAT_TYPE_FAT16:
+            type_mismatch = num_clusters < 4085 or num_clusters >= 65525
+        else:
+            type_mismatch = num_clusters < 65525
+        if type_mismatch:
+            raise PyFATException(f"Cannot create a FAT{fat_type} filesystem "
+                                 f"of {size} bytes with {number_of_fats} "
+                                 f"FATs: {num_clusters} clusters is not a "
+                                 f"FAT{fat_type} cluster count.",
+                                 errno=errno.EINVAL)
+
         if fat_type == PyFat.FAT_TYPE_FAT32:
             fat_size_16 = 0
             fat_size_32 = self._fat_size
